@@ -92,10 +92,11 @@ theorem pull_model_text :
   ⟨rfl, rfl, rfl, rfl⟩
 
 /-- the text `Model/ByteReader.lean` (and the payload-push / record part of `Pull.readMessageV2`) was written against:
-read.go `peekRead`, `readVarInt`, `readNewBytes`, discard.go `discardN`, message_reader.go `runFunc`,
+read.go `peekRead`, `readVarInt`, `readNewBytes`, `readBytesWith`, `readArrayLen`, discard.go `discardN`, `discardBytes`,
+message_reader.go `runFunc`,
 `readMessageHeader`, `readMessageV2` — normalised like `pull_model_text` -/
 theorem byte_model_text :
-    Gen.decoderFacts.byteFuncs = "peekRead { if $1 > $2 { return $2, errShortRead } $3, $4 := $5.Peek($1) if $4 != nil { return $2, $4 } $6($3) return discardN($5, $2, $1) } ;; readVarInt { $1, _ := $2.Peek($2.Buffered()) $3 := uint64(0) $4 := uint(0) for { if len($1) > $5 { $1 = $1[:$5] } for $6, $7 := range $1 { if $7 < 0x80 { $3 |= uint64($7) << $4 *$8 = int64($3>>1) ^ -(int64($3) & 1) $9, $10 := $2.Discard($6 + 1) return $5 - $9, $10 } $3 |= uint64($7&0x7f) << $4 $4 += 7 } $9, _ := $2.Discard(len($1)) $5 -= $9 if $5 == 0 { return 0, errShortRead } if _, $10 := $2.Peek(1); $10 != nil { if errors.Is($10, io.EOF) { $10 = errShortRead } return $5, $10 } $1, _ = $2.Peek($2.Buffered()) } } ;; readNewBytes { var $1 error var $2 []byte var $3 bool if $4 > 0 { if $5 < $4 { $4 = $5 $3 = true } $2 = make([]byte, $4) $4, $1 = io.ReadFull($6, $2) $2 = $2[:$4] $5 -= $4 if $1 == nil && $3 { $1 = errShortRead } } return $2, $5, $1 } ;; discardN { var $1 error if $2 <= $3 { $2, $1 = $4.Discard($2) } else { $2, $1 = $4.Discard($3) if $1 == nil { $1 = errShortRead } } return $3 - $2, $1 } ;; runFunc { var $1 int64 must($r.readVarInt(&$1)) $r.remain = must($2($r.reader, $r.remain, int($1))) return } ;; readMessageHeader { var $1 int64 must($r.readVarInt(&$1)) $2.Key = must($r.readNewString(int($1))) var $3 int64 must($r.readVarInt(&$3)) $2.Value = must($r.readNewBytes(int($3))) return nil } ;; readMessageV2 { must($r.readHeader()) if $r.count == int($r.header.v2.count) { var $1 CompressionCodec $1 = must($r.header.compression()) if $1 != nil { $2 := int($r.header.length - 49) if $2 > $r.remain { $3 = errShortRead return } if $2 < 0 { $3 = fmt.Errorf(\"batch remain < 0 (%d)\", $2) return } $r.decompressed.Reset() $r.decompressed.Grow(4 * $2) $4 := io.LimitedReader{R: $r.reader, N: int64($2)} $5 := $1.NewReader(&$4) _, $3 = $r.decompressed.ReadFrom($5) $5.Close() if $3 != nil { return } $r.remain -= $2 - int($4.N) $r.readerStack = &readerStack{reader: bufio.NewReaderSize($r.decompressed, 0), remain: $r.decompressed.Len(), base: -1, parent: $r.readerStack, header: $r.header, count: $r.count} $r.readerStack.parent.count = 0 } } $6 := $r.remain var $7 int64 must($r.readVarInt(&$7)) $8 := $6 - $r.remain var $9 int8 must($r.readInt8(&$9)) var $10 int64 must($r.readVarInt(&$10)) $11 = $r.header.v2.firstTimestamp + $10 var $12 int64 must($r.readVarInt(&$12)) $13 = $r.header.firstOffset + $12 must($r.runFunc($14)) must($r.runFunc($15)) var $16 int64 must($r.readVarInt(&$16)) if $16 > 0 { $17 = make([]Header, $16) for $18 := range $17 { must($r.readMessageHeader(&$17[$18])) } } $19 = $r.header.firstOffset + int64($r.header.v2.lastOffsetDelta) $r.lengthRemain -= int($7) + $8 if $r.count == 1 { $r.batchEnd = $19 + 1 } $r.markRead() return }" := rfl
+    Gen.decoderFacts.byteFuncs = "peekRead { if $1 > $2 { return $2, errShortRead } $3, $4 := $5.Peek($1) if $4 != nil { return $2, $4 } $6($3) return discardN($5, $2, $1) } ;; readVarInt { $1, _ := $2.Peek($2.Buffered()) $3 := uint64(0) $4 := uint(0) for { if len($1) > $5 { $1 = $1[:$5] } for $6, $7 := range $1 { if $7 < 0x80 { $3 |= uint64($7) << $4 *$8 = int64($3>>1) ^ -(int64($3) & 1) $9, $10 := $2.Discard($6 + 1) return $5 - $9, $10 } $3 |= uint64($7&0x7f) << $4 $4 += 7 } $9, _ := $2.Discard(len($1)) $5 -= $9 if $5 == 0 { return 0, errShortRead } if _, $10 := $2.Peek(1); $10 != nil { if errors.Is($10, io.EOF) { $10 = errShortRead } return $5, $10 } $1, _ = $2.Peek($2.Buffered()) } } ;; readNewBytes { var $1 error var $2 []byte var $3 bool if $4 > 0 { if $5 < $4 { $4 = $5 $3 = true } $2 = make([]byte, $4) $4, $1 = io.ReadFull($6, $2) $2 = $2[:$4] $5 -= $4 if $1 == nil && $3 { $1 = errShortRead } } return $2, $5, $1 } ;; readBytesWith { var $1 error var $2 int if $3, $1 = readArrayLen($4, $3, &$2); $1 != nil { return $3, $1 } if $2 > $3 { return $3, errShortRead } return $5($4, $3, $2) } ;; readArrayLen { var $1 error var $2 int32 if $3, $1 = readInt32($4, $3, &$2); $1 != nil { return $3, $1 } *$5 = int($2) return $3, nil } ;; discardN { var $1 error if $2 <= $3 { $2, $1 = $4.Discard($2) } else { $2, $1 = $4.Discard($3) if $1 == nil { $1 = errShortRead } } return $3 - $2, $1 } ;; discardBytes { return readBytesWith($1, $2, func($1 *bufio.Reader, $2 int, $3 int) (int, error) { }) } ;; runFunc { var $1 int64 must($r.readVarInt(&$1)) $r.remain = must($2($r.reader, $r.remain, int($1))) return } ;; readMessageHeader { var $1 int64 must($r.readVarInt(&$1)) $2.Key = must($r.readNewString(int($1))) var $3 int64 must($r.readVarInt(&$3)) $2.Value = must($r.readNewBytes(int($3))) return nil } ;; readMessageV2 { must($r.readHeader()) if $r.count == int($r.header.v2.count) { var $1 CompressionCodec $1 = must($r.header.compression()) if $1 != nil { $2 := int($r.header.length - 49) if $2 > $r.remain { $3 = errShortRead return } if $2 < 0 { $3 = fmt.Errorf(\"batch remain < 0 (%d)\", $2) return } $r.decompressed.Reset() $r.decompressed.Grow(4 * $2) $4 := io.LimitedReader{R: $r.reader, N: int64($2)} $5 := $1.NewReader(&$4) _, $3 = $r.decompressed.ReadFrom($5) $5.Close() if $3 != nil { return } $r.remain -= $2 - int($4.N) $r.readerStack = &readerStack{reader: bufio.NewReaderSize($r.decompressed, 0), remain: $r.decompressed.Len(), base: -1, parent: $r.readerStack, header: $r.header, count: $r.count} $r.readerStack.parent.count = 0 } } $6 := $r.remain var $7 int64 must($r.readVarInt(&$7)) $8 := $6 - $r.remain var $9 int8 must($r.readInt8(&$9)) var $10 int64 must($r.readVarInt(&$10)) $11 = $r.header.v2.firstTimestamp + $10 var $12 int64 must($r.readVarInt(&$12)) $13 = $r.header.firstOffset + $12 must($r.runFunc($14)) must($r.runFunc($15)) var $16 int64 must($r.readVarInt(&$16)) if $16 > 0 { $17 = make([]Header, $16) for $18 := range $17 { must($r.readMessageHeader(&$17[$18])) } } $19 = $r.header.firstOffset + int64($r.header.v2.lastOffsetDelta) $r.lengthRemain -= int($7) + $8 if $r.count == 1 { $r.batchEnd = $19 + 1 } $r.markRead() return }" := rfl
 
 /-! ## 0. The defects of the pinned code (`Variant.legacy`), kept as theorems about the legacy model
 
@@ -246,6 +247,14 @@ theorem record_bytes (rec : Spec.RB.RecV2) (rest : Bytes) (remain : Nat) :
   refine ⟨fun hle => ⟨h1 hle, ?_⟩, fun hlt => ⟨h2 hlt, readRec_prefix rec rest remain hlt⟩⟩
   rw [List.take_append, List.take_of_length_le hle]
   exact Spec.RB.readRec_encRec rec _
+
+/-- `message_bytes`: key and value of a v0/v1 message (readMessageV1: `readBytesWith(key)`, `readBytesWith(val)` at or above
+`min`; `discardBytes` twice below it): with both inside what is left of the message set they are read (skipped) and
+exactly their bytes consumed; cut anywhere → errShortRead.  (The tokenizer asks for the whole body at once.) -/
+theorem message_bytes (m : Spec.RB.Msg) (hk : RW.InRange RW.M32 (Spec.RB.optLen m.key : Int))
+    (hv : RW.InRange RW.M32 (Spec.RB.optLen m.value : Int)) :
+    BR.AllOrShort BR.readBodyV1 (encB1 m) (m.key.getD [], m.value.getD []) ∧ BR.AllOrShort BR.skipBodyV1 (encB1 m) () :=
+  ⟨BR.readBodyV1_spec m hk hv, BR.skipBodyV1_spec m hk hv⟩
 
 /-! ### the decoder as the Go code is written (Model/PullReader.lean)
 
